@@ -41,7 +41,7 @@ def conv(v, dtype):
     try:
         if dtype == "int":
             if isinstance(v, bool):
-                return False, None
+                return True, int(v)         # the library converts booleans like any other number: True -> 1
             if isinstance(v, int):
                 return True, v
             if isinstance(v, float):
@@ -57,6 +57,17 @@ def conv(v, dtype):
             return True, float(v)
         if dtype in ("string", "text"):
             return True, str(v)
+        if dtype == "date":
+            import datetime as _dt
+            if isinstance(v, _dt.datetime):
+                return False, None          # a datetime is not a date
+            if isinstance(v, _dt.date):
+                return True, v
+            return False, None
+        if dtype == "boolean":
+            if isinstance(v, bool):
+                return True, v
+            return False, None
     except (ValueError, TypeError):
         return False, None
     return False, None
@@ -430,6 +441,27 @@ def planted_cases():
                     cases.append({"dest": enc(d), "src": enc(s), "strict": strict, "pre": [
                         {"side": side, "path": [list(x) for x in path], "extra": enc(extra)}],
                         "planted": ["earlier-merge-into-%s" % side, "lacking" if lacking else "present", len(path), "sec"]})
+        # values of a look-alike Python type (sub-classes: bool is an int, datetime is a date) in a lenient merge
+        import datetime as _dt
+        for ddt, dvals, sdt, svals, tag in (("int", [2], "boolean", [True, False], "int<-boolean"),
+                                            ("date", [_dt.date(2020, 1, 2)], "datetime", [_dt.datetime(2021, 3, 4, 5, 6, 7)], "date<-datetime"),
+                                            ("date", [_dt.date(2020, 1, 2)], "date", [_dt.date(2021, 3, 4)], "date<-date"),
+                                            ("boolean", [True], "boolean", [False], "boolean<-boolean")):
+            for depth in (0, 1):
+                d, s = template(), template()
+                dn, sn = (d, s) if depth == 0 else (d["sections"][0], s["sections"][0])
+                dn["properties"].append(P("lookalike", ddt, dvals))
+                sn["properties"].append(P("lookalike", sdt, svals))
+                cases.append({"dest": enc(d), "src": enc(s), "strict": strict, "planted": ["values-of-lookalike-type", tag, depth, "prop"]})
+        # names that are canonically equivalent (NFC / NFD) but not equal are different names
+        for depth in (0, 1):
+            d, s = template(), template()
+            dn, sn = (d, s) if depth == 0 else (d["sections"][0], s["sections"][0])
+            dn["properties"].append(P(u"caf\u00e9", "string", ["composed"]))
+            sn["properties"].append(P(u"cafe\u0301", "string", ["decomposed"]))
+            dn["sections"].append(S(u"\u00c5ngstr\u00f6m", props=[P("k", "int", [1])]))
+            sn["sections"].append(S(u"A\u030angstro\u0308m", props=[P("k", "int", [2])]))
+            cases.append({"dest": enc(d), "src": enc(s), "strict": strict, "planted": ["names-canonically-equivalent", "", depth, "sec"]})
         d, s = template(), S("root", props=[P("new1", "string", ["n"])], secs=[S("zz", props=[P("k", "int", [1])])])
         cases.append({"dest": enc(d), "src": enc(s), "strict": strict, "planted": ["disjoint", "", 0, "sec"]})
         d, s = S("root"), template()
